@@ -320,6 +320,32 @@ def _lifecycle_case(ev, w, plan, sib=0):
             if job.document.filename != f"/q/workspace/{old_id}/signac_job_document.json":
                 problems.append(("document filename after move", job.document.filename))
             return (not problems), problems
+        if ev in (3, 4):
+            # Job.clear() / Job.reset() empty the document: inside a buffered block whose writes are not on disk yet, and as seen by a
+            # second, independent handle that had already loaded the document
+            other = s.pr["/p"].open_job({"a": 0})
+            if sib:
+                job.document["pre"] = 0
+                _ = other.document()          # the second handle has loaded the pre-state
+            ctx = None
+            if plan:
+                ctx = signac.buffered()
+                ctx.__enter__()
+            job.document["x"] = 1
+            (job.clear if ev == 3 else job.reset)()
+            inside = dict(job.document())
+            if inside != {}:
+                problems.append(("document not empty right after clear()/reset()", inside))
+            if ctx:
+                ctx.__exit__(None, None, None)
+            seen = dict(other.document())
+            if seen != {}:
+                problems.append(("second handle still sees the old document after clear()/reset()", seen))
+            other.document["y"] = w
+            raw = s.fs.get(job.path + "/signac_job_document.json")
+            if raw is None or json.loads(raw) != {"y": w}:
+                problems.append(("document file after clear()/reset() and a write through the second handle", raw))
+            return (not problems), problems
         ctx = None
         if plan:
             ctx = signac.buffered()
@@ -356,10 +382,10 @@ def _lifecycle_case(ev, w, plan, sib=0):
 
 
 def h_lifecycle(ev: int, w: int, plan: int, sib: bool):
-    assert 0 <= ev <= 2 and 0 <= w <= 1 and 0 <= plan <= 1 and (ev != 2 or not sib)
-    assert not (ev >= 1 and plan == 1)  # a state point change inside a buffered block is not a document operation (outside the claim; see DESIGN §6)
+    assert 0 <= ev <= 4 and 0 <= w <= 1 and 0 <= plan <= 1 and (ev != 2 or not sib)
+    assert not (ev in (1, 2) and plan == 1)  # a state point change inside a buffered block is not a document operation (outside the claim; see DESIGN §6)
     fresh_path()
-    ev, w, plan, sib = ci(ev, 0, 2), ci(w, 0, 1), ci(plan, 0, 1), cb(sib)
+    ev, w, plan, sib = ci(ev, 0, 4), ci(w, 0, 1), ci(plan, 0, 1), cb(sib)
     with nt():
         r = _lifecycle_case(ev, w, plan, sib)
     reached()
